@@ -15,6 +15,7 @@ mod fam_hexenc;
 mod fam_ids;
 mod fam_sync;
 mod fam_hexcol;
+mod fam_edit;
 mod gen;
 mod model;
 
@@ -45,6 +46,7 @@ fn main() {
         "ids" => fam_ids::run(&mut rng, &tier, out),
         "sync" => fam_sync::run(&mut rng, &tier, out),
         "hexcol" => fam_hexcol::run(&mut rng, &tier, out),
+        "edit" => fam_edit::run(&mut rng, &tier, out),
         _ => {
             eprintln!("unknown family {}", fam);
             std::process::exit(2);
